@@ -13,6 +13,16 @@
 // replacement of those texts — each judged against the three-valued reference reader
 // ref/refsnbt (accept(tree) / reject / unspecified).
 //
+// Added by the white-box audit (each in its own file, each exhaustive over a stated menu):
+//
+//	A1s  (sweeps.go)   every string over a character-level alphabet at four positions of a document
+//	A2iv (sweeps.go)   every byte value / byte pair in the hole(s) of a menu of text contexts
+//	H    (history.go)  every sequence of <= H conversions (good and failing, both directions) on one
+//	                   goroutine and one destination
+//	E    (embed.go)    the converters as struct field, map value, list element, named root, network
+//	                   format and first document of a stream, both directions, malformed texts included
+//	S    (size.go)     size classes: string length, element count, nesting depth
+//
 // See oracle.go for the oracle clauses and the failure classes.
 package main
 
@@ -25,6 +35,7 @@ import (
 	"os"
 	"runtime/pprof"
 	"sort"
+	"strings"
 	"sync"
 	"sync/atomic"
 	"time"
@@ -41,12 +52,30 @@ var (
 
 // Case is the replayable descriptor of one failing case.
 type Case struct {
-	Dir     string `json:"direction"`          // "text→bin" or "bin→text→bin"
-	Text    string `json:"text,omitempty"`     // text→bin: the SNBT text (for humans)
-	TextHex string `json:"text_hex,omitempty"` // text→bin: the SNBT text (authoritative)
-	DocHex  string `json:"doc_hex,omitempty"`  // bin→text→bin: the NBT document (file format, empty root name)
-	Tree    string `json:"tree,omitempty"`     // bin→text→bin: the document tree (for humans)
-	Origin  string `json:"origin,omitempty"`   // which family produced the case
+	Dir     string   `json:"direction"`          // "text→bin" or "bin→text→bin"
+	Text    string   `json:"text,omitempty"`     // text→bin: the SNBT text (for humans)
+	TextHex string   `json:"text_hex,omitempty"` // text→bin: the SNBT text (authoritative)
+	DocHex  string   `json:"doc_hex,omitempty"`  // bin→text→bin: the NBT document (file format, empty root name)
+	Tree    string   `json:"tree,omitempty"`     // bin→text→bin: the document tree (for humans)
+	Origin  string   `json:"origin,omitempty"`   // which family produced the case
+	Ops     []HistOp `json:"ops,omitempty"`      // history: the operations, in order
+}
+
+func mustHex(h string) []byte {
+	raw, err := hex.DecodeString(h)
+	if err != nil {
+		engine.HarnessError("bad hex in replay case: %v", err)
+	}
+	return raw
+}
+
+func mustTree(docHex string) *refnbt.Node {
+	doc := mustHex(docHex)
+	_, tree, used, perr := refnbt.Parse(doc, false)
+	if perr != nil || used != len(doc) {
+		engine.HarnessError("replay document does not parse: %v", perr)
+	}
+	return tree
 }
 
 // tally is a per-worker counter set flushed into the report at the end of a family.
@@ -93,7 +122,12 @@ func main() {
 	rep.Rule = "A1: every NBT tree of <=N nodes from refnbt.Gen over the C04 alphabet (12 strings/keys chosen against the quoting decision and the literal classifier; boundary integers; floats 0.1, 1e-20, 1e20, -0, max, min subnormal, 1.5, 1/3, NaN, Inf), one case per tree; " +
 		"A2(i): every string of length <=L over the 22 characters `{}[],:;\"'\\ \\n01-+.ebLIa`; A2(ii): every sequence of <=K tokens over 7 punctuation tokens and 28 literals (one space between adjacent literals); " +
 		"A2(iii): every (tree, lexical style, layout with <=D whitespace insertions) text printed by ref/refsnbt for the layout tree family, and every single-token deletion, duplication and replacement (7 punctuation + 8 literals) of every undeviated styled text. " +
-		"distinct_nontrivial = A1 trees + texts of (i), (ii) and the valid texts of (iii) (each enumeration is injective; trees whose empty lists carry a non-End element tag are skipped in (iii) because they print identically); mutants are counted in evaluations only. Every case reaches the converter, so none is trivial."
+		"A1s: every string of <=U units over 128 ASCII bytes + 3 multi-byte runes, every string of <=C characters over the 18-character classifier alphabet and a word list, each as root String, compound key, list element and compound value; " +
+		"A2(iv): every byte value in each one-hole text context and every byte pair in each two-hole context (deduplicated); " +
+		"H: every sequence of <=H operations from the call-history menu (texts accepted and rejected at every depth, trees, truncated documents) on one goroutine and one destination, plus every strict prefix of three documents followed by every judged operation; " +
+		"E: every tree of <=nEmb nodes over the reduced alphabet at five positions (struct field, map value, list element, named root followed by a second document, network format) in both directions, and every rejected menu text at the five encode positions; " +
+		"S: a menu of sizes for string length, element count and nesting depth, each as tree and as compact and indented reference text. " +
+		"distinct_nontrivial = A1 trees + texts of (i), (ii) and the valid texts of (iii) (each enumeration is injective; trees whose empty lists carry a non-End element tag are skipped in (iii) because they print identically); mutants are counted in evaluations only; A1s trees, A2(iv) texts, histories, E trees and S cases are added (each menu is deduplicated or injective by construction). Every case reaches the converter, so none is trivial."
 	wd = engine.NewWatchdog(engine.Workers()+2, 20*time.Second, func(desc string) {
 		var c Case
 		json.Unmarshal([]byte(desc), &c)
@@ -119,17 +153,25 @@ func main() {
 		L, K         int // A2 (i), (ii)
 		nLay2, nLay1 int // A2 (iii): nodes explored with 2 / 1 whitespace deviations
 		nMut         int // A2 (iii): nodes whose styled texts are mutated
+		sU, sC       int // A1s: units over the 131-unit alphabet / characters over the classifier alphabet
+		H, nEmb      int // H: history length; E: nodes of the embedded trees
 		deadline     time.Duration
 	}
-	b := bounds{nFull: 3, nRed: 3, L: 5, K: 4, nLay2: 2, nLay1: 3, nMut: 3, deadline: 100 * time.Second}
+	b := bounds{nFull: 3, nRed: 3, L: 5, K: 4, nLay2: 2, nLay1: 3, nMut: 3, sU: 2, sC: 4, H: 3, nEmb: 3, deadline: 100 * time.Second}
 	if rep.Thorough() {
-		b = bounds{nFull: 3, nRed: 4, L: 6, K: 5, nLay2: 3, nLay1: 3, nMut: 3, deadline: 25 * time.Minute}
+		b = bounds{nFull: 3, nRed: 4, L: 6, K: 5, nLay2: 3, nLay1: 3, nMut: 3, sU: 2, sC: 5, H: 4, nEmb: 4, deadline: 25 * time.Minute}
 	}
 	dl := time.Now().Add(b.deadline)
 
+	skip := os.Getenv("C04_SKIP") // developer aid: leave out families (comma-separated; evidence is then marked capped)
 	run := func(name string, f func()) {
 		if only != "" && only != name {
 			return
+		}
+		for _, s := range strings.Split(skip, ",") {
+			if s == name {
+				return
+			}
 		}
 		t0 := time.Now()
 		f()
@@ -138,7 +180,15 @@ func main() {
 	if only != "" {
 		rep.Cap("C04_ONLY=%s: only one family was run", only)
 	}
+	if skip != "" {
+		rep.Cap("C04_SKIP=%s: families were left out", skip)
+	}
 	run("catalogue", catalogue)
+	run("A1s", func() { famStringSweep(b.sU, b.sC, dl) })
+	run("A2iv", func() { famByteSweep(dl) })
+	run("H", func() { famHistory(b.H, dl) })
+	run("E", func() { famEmbedded(b.nEmb, dl) })
+	run("S", func() { famSize(dl) })
 	run("A1", func() { famA1(b.nFull, b.nRed, dl) })
 	run("A2i", func() { famStrings(b.L, dl) })
 	run("A2ii", func() { famTokens(b.K, dl) })
@@ -154,10 +204,14 @@ func main() {
 	rep.Extra("A2iii_nodes_with_2_whitespace_deviations", b.nLay2)
 	rep.Extra("A2iii_nodes_with_1_whitespace_deviation", b.nLay1)
 	rep.Extra("A2iii_nodes_mutated", b.nMut)
+	rep.Extra("E_nodes", b.nEmb)
 	rep.AddTraces(rep.Evaluations)
 	flushRefused()
 	rep.Assume("ref/refsnbt (three-valued SNBT reader, self-tested on 200+ hand vectors and on the published bigtest values) and ref/refnbt are trusted")
 	rep.Assume("unspecified (executed, must not panic, accepted output must be one well-formed document, content not judged): true/false, numeric-looking tokens that do not match the number grammar cleanly (leading zeros, bare sign, 1e3 without '.', 1I, out-of-range integers/floats), escapes other than \\\\ and \\<own quote>, trailing commas, duplicate keys, bare ints in [B;]/[L;], whitespace inside the `[B;` prefix, characters outside printable ASCII outside quotes; in A1: trees containing NaN/Inf or duplicate keys; empty lists compare equal regardless of element tag")
+	rep.Assume("S: a text holding a string or key of 32768..65535 bytes is unspecified when accepted (NBT readers disagree whether the 16-bit length is signed); from 65536 bytes on the usual oracle applies. Documents nested deeper than 512 are only run in the text direction, where the reference reader calls nesting deeper than 256 unspecified")
+	rep.Assume("H: truncated documents (bad-doc / bad-raw operations) are run to perturb state and are only required not to panic; rejecting them is C03's subject")
+	rep.Assume("E: the text obtained at a position is judged by converting it back (it need not equal the text obtained at the root); lists of StringifiedMessage hold the same text twice (a list of texts of different tags is the generic encoder's business, C01/C02)")
 	rep.Assume("an implementation error on a text the reference accepts is counted (ref_accepts_impl_errors) but is not a violation in A2: the statement only constrains accepted texts and malformed texts; in A1 the writer's own text must be accepted")
 	rep.Finish()
 }
@@ -247,6 +301,10 @@ func replay() {
 		for i := 0; i < 5; i++ {
 			runTree(0, tree, c.Origin, t)
 		}
+	case dirHist:
+		replayHistory(c)
+	case dirEmb, dirEmbText:
+		replayEmbedded(c)
 	default:
 		engine.HarnessError("unknown direction %q", c.Dir)
 	}
